@@ -43,3 +43,14 @@ def budget2(L, omega, S):
 
 def budget4(L, omega, Sx, Sy):
     return 4.0 * C * EPS * L * growth(L, omega) * Sx * Sy + TINY
+
+
+def budget_m2(e, m2_ref, b4):
+    """Budget for the scatter statistic M2 = mean_k |Z_k - mean Z|^2 of a backward-stable (two-pass) evaluation.
+
+    If every per-segment product Z_k carries an error of at most e (the second-order budget), the centred values
+    change by at most 2e, hence |dM2| <= 4 e sqrt(M2) + 4 e^2 (plus a few ulp of M2).  This is proportional to the
+    *scatter*, not to |mean Z|^2: an evaluation as mean|Z|^2 - |mean Z|^2 loses eps*|mean Z|^2 by cancellation and
+    exceeds it whenever the segments are nearly identical (strong line, tiny noise).  Never looser than the
+    plain fourth-order budget b4."""
+    return min(b4, 4.0 * e * (max(m2_ref, 0.0) ** 0.5) + 4.0 * e * e + 1e-13 * max(m2_ref, 0.0) + TINY)
